@@ -13,7 +13,7 @@ RULE = ("Hypothesis draws call programs over the public encoder and decoder API:
         "and no call blocks with the process idle (per-call deadlock signature, 8 s; the documented blocking get_packet after EOS gets 48 s). non-trivial = program "
         "contains >=1 NULL-argument call after a successful init_handle, or a reject->accept pair; distinct = program hash.")
 ASSUMPTIONS = ["non-NULL calls follow the documented order; calling e.g. send_picture before init is outside the documented protocol and not generated",
-               "decoder calls get 32 bytes of slack after each packet (by-construction exclusion of the known decoder over-read, see C10)"]
+               "decoder packets are passed in exact-size heap buffers"]
 E_NONE = 0
 VALID_CFG = "source_width=64 source_height=64 enc_mode=8 logical_processors=2 recon_enabled=%d"
 INVALID = ["qp=64", "source_width=63", "enc_mode=9", "tile_columns=5", "hierarchical_levels=6", "rate_control_mode=3", "intra_refresh_type=0", "profile=3"]
